@@ -31,7 +31,8 @@ RULE = ('(a) for every option of async_background_batcher alone and jointly at n
         'all equal the Lean batcher machine instantiated with those values; (b) buffer_until_timeout direct vs '
         '@deco(timeout=T) for T in a grid: call instants; (c) threadsafe_async_cache direct vs @deco(cache=M): the '
         'supplied mapping is the store; (d) a decorated batcher used from 1..3 loops successively and 2..3 at once: '
-        'each loop equals a stand-alone machine fed only its own inputs; distinct = distinct (form, options, program)')
+        'each loop equals a stand-alone machine fed only its own inputs; (e) one configured decorator object applied to two '
+        'functions used on one loop equals the two direct forms; distinct = distinct (form, options, program)')
 
 
 def pre_build():
@@ -287,6 +288,98 @@ def per_loop(seed, count, out, drv):
         out.count('per-loop:' + ('concurrent' if concurrent else 'successive') + ':%d' % nloops)
 
 
+# ------------------------------------------------------------------ (e) one configured decorator, several functions
+def shared_decorator(seed, count, out):
+    """`deco = async_background_batcher(**opts)` (resp. `buffer_until_timeout(timeout=T)`) applied to TWO functions, both
+    used on one loop: each decorated function must behave like the direct form of its own function."""
+    from aiuti.asyncio import async_background_batcher, buffer_until_timeout
+    for i in range(count):
+        rng = random.Random((seed << 16) + 900000 + i)
+        cfg = rng.choice(option_sets(rng))
+        kw = kwargs_of(cfg)
+        t = 0
+        prog = []
+        for _ in range(rng.randint(2, 8)):
+            t += rng.choice([0, 0, 16, 64, 200, 700])
+            prog.append((t, rng.randrange(2), rng.randint(0, 4)))
+        which = rng.choice(['batcher', 'batcher', 'buffer'])
+        T = rng.choice([96, 256])
+        got = {}
+        for form in ('direct', 'deco'):
+            case = {'part': 'shared-decorator', 'decorator': which, 'form': form, 'cfg': cfg, 'prog': prog, 'T': T}
+            mark(case)
+            out.evaluations += 1
+            loop = VLoop()
+            asyncio.set_event_loop(loop)
+            log = []
+            res = {}
+
+            def mkbf(tag, log=log, loop=loop):
+                async def bf(batch):
+                    batch = list(batch)
+                    log.append((tag, round(loop.time() / TICK), sorted(k for k, _ in batch)))
+                    for k, a in batch:
+                        yield k, (tag, a)
+                return bf
+
+            def mkf(tag, log=log, loop=loop):
+                async def f(args):
+                    log.append((tag, round(loop.time() / TICK), sorted(args)))
+                return f
+            try:
+                if which == 'batcher':
+                    if form == 'direct':
+                        fs = [async_background_batcher(mkbf('A'), **kw), async_background_batcher(mkbf('B'), **kw)]
+                    else:
+                        deco = async_background_batcher(**kw)
+                        fs = [deco(mkbf('A')), deco(mkbf('B'))]
+                else:
+                    if form == 'direct':
+                        fs = [buffer_until_timeout(mkf('A'), timeout=T * TICK),
+                              buffer_until_timeout(mkf('B'), timeout=T * TICK)]
+                    else:
+                        deco = buffer_until_timeout(timeout=T * TICK)
+                        fs = [deco(mkf('A')), deco(mkf('B'))]
+
+                async def caller(j, w, a, fs=fs, res=res):
+                    try:
+                        res[j] = ('ok', await fs[w](a))
+                    except BaseException as e:  # noqa
+                        res[j] = ('exc', type(e).__name__)
+
+                async def main(fs=fs, loop=loop):
+                    tasks = []
+                    for j, (tt, w, a) in enumerate(prog):
+                        dt = tt * TICK - loop.time()
+                        if dt > 0:
+                            await asyncio.sleep(dt)
+                        if which == 'batcher':
+                            tasks.append(asyncio.create_task(caller(j, w, a)))
+                        else:
+                            fs[w](a)
+                    await asyncio.sleep(6000 * TICK)
+                    for tk in tasks:
+                        if not tk.done():
+                            tk.cancel()
+                    await asyncio.sleep(0)
+                loop.run_until_complete(main())
+            finally:
+                loop.close()
+                asyncio.set_event_loop(None)
+            got[form] = (sorted(res.items()), sorted(log))
+            out.traces_validated += 1
+            out.fingerprints.add(fingerprint(case))
+        if got['deco'] != got['direct']:
+            name = 'async_background_batcher' if which == 'batcher' else 'buffer_until_timeout'
+            out.concrete.append({'case': {'part': 'shared-decorator', 'decorator': which, 'cfg': cfg, 'prog': prog,
+                                          'T': T, 'seed': seed, 'index': i},
+                                 'what': f'one configured {name}(...) decorator applied to two functions A and B: calls '
+                                         f'(time, function, arg) {prog} give {got["deco"]}, but wrapping A and B directly '
+                                         f'with the same options gives {got["direct"]}',
+                                 'signature': {'kind': 'form-differs', 'decorator': name, 'form': 'deco-shared'}})
+        out.count('shared-decorator:' + which)
+
+
 def _chunk(payload):
     import logging
     logging.disable(logging.CRITICAL)
@@ -297,6 +390,8 @@ def _chunk(payload):
         batcher_forms(seed, n, out, drv)
     elif part == 'loops':
         per_loop(seed, n, out, drv)
+    elif part == 'shared':
+        shared_decorator(seed, n, out)
     else:
         buffer_forms(out)
         cache_forms(out)
@@ -308,6 +403,7 @@ def run(ctx):
     k = 4 if ctx.quick else ctx.workers
     chunks = [(ctx.seed * 100 + j, 'forms', n // k) for j in range(k)]
     chunks += [(ctx.seed * 100 + j, 'loops', max(10, n // (2 * k))) for j in range(k)]
+    chunks += [(ctx.seed * 100 + j, 'shared', max(15, n // (2 * k))) for j in range(2)]
     chunks += [(ctx.seed, 'small', 0)]
     return run_chunks(_chunk, chunks, k, limit_s=120 if ctx.quick else 1200)
 
@@ -322,6 +418,7 @@ def search(ctx, outcome):
         batcher_forms(ctx.seed * 100 + 50 + seed, 60, out, drv)
     buffer_forms(out)
     cache_forms(out)
+    shared_decorator(ctx.seed * 100 + 50, 60, out)
     out.diffs = []
     return out
 
@@ -339,6 +436,8 @@ def replay(ctx, payload):
         buffer_forms(out)
     elif part == 'cache-forms':
         cache_forms(out)
+    elif part == 'shared-decorator':
+        shared_decorator(case.get('seed', ctx.seed), case.get('index', 0) + 1, out)
     else:
         per_loop(ctx.seed, 20, out, ctx.driver)
     return {'case': case, 'violations': [c['what'] for c in out.concrete], 'fails': bool(out.concrete)}
